@@ -515,11 +515,12 @@ func c02configs(tier string) []cfg {
 	var out []cfg
 	qs := []string{"flag", "items", "thing", "maybe", "blobs"}
 	envFor := map[string][]string{
-		"flag":  {"flag++"},
-		"items": {"reorder", "insert", "delete", "edit", "clear"},
-		"blobs": {"reorder", "insert", "edit"},
-		"thing": {"union-switch", "union-null", "union-plain"},
-		"maybe": {"maybe-toggle", "flag++"},
+		"flag":   {"flag++"},
+		"items":  {"reorder", "insert", "delete", "edit", "clear"},
+		"blobs":  {"reorder", "insert", "edit"},
+		"scaled": {"flag++", "reorder"},
+		"thing":  {"union-switch", "union-null", "union-plain"},
+		"maybe":  {"maybe-toggle", "flag++"},
 	}
 	for _, q := range qs {
 		for _, e := range envFor[q] {
@@ -535,6 +536,9 @@ func c02configs(tier string) []cfg {
 		cfg{Client: []string{"S:a:flag", "S:b:items"}, Env: []string{"flag++", "edit"}},
 		cfg{Client: []string{"S:a:flag", "S:b:maybe"}, Env: []string{"flag++"}},
 		cfg{Client: []string{"S:a:flag", "M:m:5"}},
+		// one Expensive field with an argument under two aliases (six memoised units per run: explored at bound 1)
+		cfg{Client: []string{"S:a:scaled"}, Env: []string{"flag++"}, Deep: 1},
+		cfg{Client: []string{"S:a:scaled"}, Chain: []string{"reorder", "flag++"}},
 		// a re-run that was scheduled by a data change and is about to start when the unsubscribe is handled
 		cfg{Client: []string{"S:a:flag", "U:a", "E"}, Env: []string{"flag++"}, Deep: 3},
 		cfg{Client: []string{"S:a:flag", "U:a", "S:a:flag"}, Env: []string{"flag++"}, Deep: 3},
